@@ -42,6 +42,17 @@ ScalarVal(k, var) ==
     [] k = "string" -> Leaf(k, IF var = 1 THEN <<104, 105, 195, 169>> ELSE <<122>>)
     [] k = "bytes" -> Leaf(k, IF var = 1 THEN <<0, 255, 128, 7>> ELSE <<1>>)
 
+\* the varint ladder: for every encoded width 1..10 the largest number of that width and the smallest of the next
+\* (2^(7j) - 1, 2^(7j)), and the all-ones pattern; signed kinds take the same bit patterns, ZigZag kinds the numbers
+\* whose ZigZag image they are.  Messages named Lad* carry it in their repeated fields.
+BitAt(e, W) == [i \in 1..NLimbs(W) |-> IF i = (e \div 16) + 1 THEN Pow2(e % 16) ELSE 0]
+LowOnes(e, W) == [i \in 1..NLimbs(W) |-> IF i - 1 < e \div 16 THEN 65535 ELSE IF i - 1 = e \div 16 THEN Pow2(e % 16) - 1 ELSE 0]
+ULadder(W) == LET n == (W - 1) \div 7 IN
+              [q \in 1..(2 * n) |-> IF q % 2 = 1 THEN LowOnes(7 * ((q + 1) \div 2), W) ELSE BitAt(7 * (q \div 2), W)] \o <<OnesInt(W)>>
+LadKinds == {"uint64", "int64", "sint64", "uint32", "int32", "sint32"}
+Ladder(k) == LET W == IF k \in {"uint64", "int64", "sint64"} THEN 64 ELSE 32
+                 u == ULadder(W)
+             IN [q \in 1..Len(u) |-> Leaf(k, IF k \in {"sint64", "sint32"} THEN UnZigZag(u[q]) ELSE u[q])]
 BigStr(n) == [j \in 1..n |-> 97 + (j % 26)]
 MaxDepth == 2
 RECURSIVE ValM(_, _, _, _)
@@ -64,6 +75,9 @@ ValM(D, name, var, depth) ==
         IN IF f.oneof # "" THEN
               (IF f.tag = chosen(f.oneof) /\ var > 0 /\ ~(k = "msg" /\ deep)
                THEN <<[tag |-> f.tag, x |-> ValT(D, f.ty, 1, depth + 1)]>> ELSE <<>>)
+           ELSE IF SubSeq(name, 1, 3) = "Lad" /\ f.label = "repeated" /\ k \in LadKinds /\ var > 0 THEN
+              LET ld == Ladder(k) IN
+              <<[tag |-> f.tag, x |-> [k |-> "rep", es |-> IF var = 1 THEN ld ELSE [q \in 1..Len(ld) |-> ld[Len(ld) + 1 - q]]]]>>
            ELSE IF big /\ f.label = "repeated" /\ k # "msg" /\ var > 0 THEN
               \* a packed payload of 128 bytes and more: a two-byte length prefix
               <<[tag |-> f.tag, x |-> [k |-> "rep", es |-> [j \in 1..(IF var = 1 THEN 40 ELSE 17) |-> ScalarVal(k, 1 + (j % 2))]]]>>
